@@ -312,6 +312,27 @@ static void image_case(uint64_t ii, void *vctx) {
             snprintf(key, sizeof(key), "clause2|open-error|rc=%d|levels=%s", rc, pl->levels >= 2 ? ">=2" : "<2");
             v_violation("C03", key, wj, "stop between two complete writes with all definitions on disk, but jls_rd_open returned %d", rc);
         }
+        /* an open that reports an error may leave the file alone; one that modified it has repaired it, whatever it returned:
+         * the file it leaves behind is then a well-formed closed file (C19, C05) */
+        {
+            jd_t d;
+            if (!jd_load(&d, path)) {
+                int modified = d.size != n || fnv1a(d.buf, d.size, FNV_INIT) != h_image;
+                v_count("C19", modified ? "failed_opens_that_modified_the_file" : "failed_opens_that_left_the_file_alone", 1);
+                if (modified) {
+                    jd_decode(&d);
+                    for (int i = 0; i < d.nerr; ++i) {
+                        int dup = 0;
+                        for (int j = 0; j < i; ++j) if (!strcmp(d.err[j].rule, d.err[i].rule)) dup = 1;
+                        if (dup) continue;
+                        snprintf(key, sizeof(key), "open-error-after-repair|malformed|%s", cut_class(im));
+                        v_violation("C05", key, wj, "jls_rd_open returned %d after modifying the file, which is not well formed: %s", rc, d.err[i].msg);
+                        v_violation("C19", key, wj, "jls_rd_open returned %d after modifying the file, which is not well formed: %s", rc, d.err[i].msg);
+                    }
+                }
+                jd_free(&d);
+            }
+        }
         unlink(path);
         return;
     }
